@@ -59,7 +59,19 @@ def main():
         rss0 = resource.getrusage(resource.RUSAGE_SELF).ru_maxrss
         for integ, entry in ENTRY_POINTS:
             for source in job["sources"]:
-                src = io.BytesIO(data) if source == "bytesio" else OneShotRaw(data, 7 if source == "raw7" else 1 << 20)
+                tmp = None
+                if source == "file":                       # a real file object: BufferedReader over FileIO, seekable
+                    import os  # noqa: PLC0415
+                    import tempfile  # noqa: PLC0415
+
+                    fd, tmp = tempfile.mkstemp(dir=env.workdir(), suffix=".jelly")
+                    with os.fdopen(fd, "wb") as f:
+                        f.write(data)
+                    src = open(tmp, "rb")  # noqa: SIM115
+                elif source == "buffered":                 # BufferedReader over an in-memory raw stream
+                    src = io.BufferedReader(io.BytesIO(data))
+                else:
+                    src = io.BytesIO(data) if source == "bytesio" else OneShotRaw(data, 7 if source == "raw7" else 1 << 20)
                 try:
                     n = run_one(integ, entry, src)
                     res[f"{integ}.{entry}/{source}"] = f"ok:{n}"
@@ -71,6 +83,12 @@ def main():
                     res[f"{integ}.{entry}/{source}"] = "raise:" + type(ex).__name__
                 except BaseException as ex:  # noqa: BLE001
                     res[f"{integ}.{entry}/{source}"] = "BASE:" + type(ex).__name__
+                finally:
+                    if tmp is not None:
+                        import os  # noqa: PLC0415
+
+                        src.close()
+                        os.unlink(tmp)
         rss1 = resource.getrusage(resource.RUSAGE_SELF).ru_maxrss
         sys.stdout.write(json.dumps({"id": job["id"], "res": res, "rss_growth_kb": rss1 - rss0}) + "\n")
         sys.stdout.flush()
